@@ -582,6 +582,7 @@ def build(tier, seed):
                          budget_s=120, expect=("in", "out"), replay=rp, functions=FUNCS, stubs=("S-FMT",)))
     kinds3 = [k for n in ((3, 4) if tier == "thorough" else (3,)) for k in itertools.product(("c", "lo", "hi"), repeat=n)
               if k.count("lo") <= 1 and k.count("hi") <= 1]
+    # (the harness has 8 number parameters: 4 items is the maximum)
     if tier == "quick":
         kinds3 = rnd.sample(kinds3, 6)
     for k in kinds3:
